@@ -545,10 +545,10 @@ Proof.
   destruct (seg_kind (ss_bat s q)); cbn [fst snd].
   - (* split *)
     set (b := ss_bat s q).
-    set (s0 := if bc_iat b then reset_traces s (bc_ents b) else s).
+    set (s0 := if bc_iat b && negb (fkeep || bc_keep b) then reset_traces s (bc_ents b) else s).
     assert (E : ents_in f s (bc_ents b)) by now apply bat_ents_in.
     assert (S0 : fstep f s s0).
-    { unfold s0. destruct (bc_iat b); [now apply fstep_reset|now apply fstep_refl]. }
+    { unfold s0. destruct (bc_iat b && negb (fkeep || bc_keep b)); [now apply fstep_reset|now apply fstep_refl]. }
     pose proof (fs_inv _ _ _ S0) as I0.
     assert (E0 : ents_in f s0 (bc_ents b)) by (eapply ents_in_step; eauto).
     pose proof (halves_in_step f f s s0 h S0 H) as H0.
@@ -982,8 +982,8 @@ Qed.
 Lemma hsame_seg_batch fkeep s h q sp : hsame s (fst (seg_batch fkeep (s, h) (q, sp))).
 Proof.
   unfold seg_batch. destruct (seg_kind (ss_bat s q)); cbn [fst]; try apply hsame_refl.
-  set (s0 := if bc_iat (ss_bat s q) then reset_traces s (bc_ents (ss_bat s q)) else s).
-  assert (H0 : hsame s s0) by (unfold s0; destruct (bc_iat (ss_bat s q)); [apply hsame_reset|apply hsame_refl]).
+  set (s0 := if bc_iat (ss_bat s q) && negb (fkeep || bc_keep (ss_bat s q)) then reset_traces s (bc_ents (ss_bat s q)) else s).
+  assert (H0 : hsame s s0) by (unfold s0; destruct (bc_iat (ss_bat s q) && negb (fkeep || bc_keep (ss_bat s q))); [apply hsame_reset|apply hsame_refl]).
   cbn [new_bat].
   destruct (sp_hasc sp), (sp_hasd sp); cbn [fst];
     repeat first [exact H0 | eapply hsame_trans; [|apply hsame_build] | eapply hsame_trans; [|apply (hsame_new_bat _ _)]].
